@@ -71,7 +71,8 @@ fn builder(c: &Cfg, v: f32, menu: &[(&'static str, ModSpec)], mods_override: Opt
 }
 
 fn check_cfg(l: &mut Local<'_>, c: &Cfg, menu: &[(&'static str, ModSpec)]) {
-    let grid: Vec<f32> = (-40..=40).map(|i| i as f32 * 0.5).collect();
+    // 0.5 steps over [-20, 20]; thorough: 0.125 steps
+    let grid: Vec<f32> = if l.ctx.quick() { (-40..=40).map(|i| i as f32 * 0.5).collect() } else { (-160..=160).map(|i| i as f32 * 0.125).collect() };
     let mut prev: Option<(f32, BeatmapAttributes)> = None;
     let rate = RATES[c.rate];
     let mname = menu[c.mods].0;
@@ -244,6 +245,8 @@ fn main() {
                     let d: Difficulty = s.difficulty(mode);
                     let conv = map.clone().convert(mode, &d.clone().inspect().mods).expect("convertible");
                     let a = api::difficulty(&d, &map, u.cfg.dst).expect("convertible");
+                    // the gradual calculators build their attributes separately: their values must carry the same windows
+                    let grad: Vec<DifficultyAttributes> = api::gradual(d.clone(), &map, u.cfg.dst).expect("convertible").take(2).collect();
                     let b = conv.attributes().difficulty(&d);
                     let built = b.build();
                     let hw = b.hit_windows();
@@ -282,6 +285,13 @@ fn main() {
                         }
                         DifficultyAttributes::Mania(_) => None,
                     };
+                    let win = |x: &DifficultyAttributes| match x {
+                        DifficultyAttributes::Osu(o) => vec![o.ar, o.great_hit_window, o.ok_hit_window, o.meh_hit_window, o.hp],
+                        DifficultyAttributes::Taiko(t) => vec![t.great_hit_window, t.ok_hit_window],
+                        DifficultyAttributes::Catch(c) => vec![c.ar],
+                        DifficultyAttributes::Mania(_) => vec![],
+                    };
+                    let bad = bad.or_else(|| grad.iter().find(|g| win(g) != win(&a)).map(|g| format!("gradual value carries {:?} but the one-shot attributes {:?}", win(g), win(&a))));
                     if let Some(msg) = bad {
                         l.violation("calculator_vs_builder", || format!("cfg={:?} setting={s:?}\n{msg}\nspec={}\n--- .osu ---\n{}", u.cfg, spec.describe(), spec.text()));
                         return;
